@@ -183,3 +183,47 @@ def check_skip_transpose(rep, units, rule='PAIR-skip-transpose'):
                               'wrong legs of the other operand' %
                               (unparse(c)[:70], ' / '.join(unparse(e)[:70] for e in gs),
                                sorted(need - have)), c.lineno)
+
+
+def check_raise_guards(prog, rep, pairs, pyx):
+    """PAIR-raise-guards: an error that both twins raise (same class, same message text) is raised
+    under the same conditions (guards read off the block structure, `and` / `not` / guard clauses
+    normalised). A twin that rejects more (or less) behaves differently for exactly those inputs."""
+    def raises(fn):
+        out = {}
+        for r in ast.walk(fn):
+            if not (isinstance(r, ast.Raise) and r.exc is not None):
+                continue
+            e = r.exc
+            cls = unparse(e.func) if isinstance(e, ast.Call) else unparse(e)
+            msg = None
+            if isinstance(e, ast.Call) and e.args:
+                for c in ast.walk(e.args[0]):
+                    if isinstance(c, ast.Constant) and isinstance(c.value, str):
+                        msg = c.value[:40]
+                        break
+            if msg is None:
+                continue
+            out[(cls, msg)] = (frozenset((t, p) for t, p, _ in guards_of(fn, r)), r)
+        return out
+    n = 0
+    for rel, q, f, repl in pairs:
+        if not pyx.has_func(repl):
+            continue
+        m = prog.module(rel)
+        rf, rg = raises(f), raises(pyx.func(repl))
+        for k in sorted(set(rf) & set(rg), key=str):
+            n += 1
+            gf, gg = rf[k][0], rg[k][0]
+            # names of cached ranks differ between the twins (a_rank / a.rank)
+            norm = lambda gs: frozenset((t.replace('_rank', '.rank'), p) for t, p in gs)
+            rep.instance('PAIR-raise-guards', {'pair': repl, 'error': '%s(%r)' % k,
+                                              'agree': norm(gf) == norm(gg)})
+            if norm(gf) != norm(gg):
+                rep.violation('PAIR-raise-guards', m, q, 'raise-guards:%s' % k[1],
+                              'both twins raise %s(%r), but under different conditions: python '
+                              'only %s, compiled only %s: inputs in the difference fail in one '
+                              'configuration and pass in the other' %
+                              (k[0], k[1], sorted(norm(gf) - norm(gg)), sorted(norm(gg) - norm(gf))),
+                              rf[k][1].lineno)
+    return n
